@@ -351,6 +351,8 @@ func runC12(w *World, r *Report) {
 	c12ReplayNotStoredAgain(w, r)
 	hrRetryAfterTypeLiteral(w, r, "R6")
 	hrEarlyResponseMessage(w, r, "R6")
+	hrFoldOrder(w, r, "R6")
+	hrCfgURLVariable(w, r, "R3")
 	hrCfgEarlyResponseNotFedBack(w, r, "R6")
 	hrRetryAfterHelpers(w, r, "R6")
 	la := NewLockAn(w)
